@@ -196,8 +196,24 @@ func runParse(args []string) string {
 		client.Backoff.InitialInterval = time.Millisecond + 7
 	}
 	errOut, wait := "NO-RETRY", "-"
+	var c *sse.Connection
+	setBuffer := func() {
+		if cfg[0] == "c" {
+			var buf []byte
+			if cfg[1] != "n" {
+				buf = make([]byte, 0, atoi(cfg[1]))
+			}
+			c.Buffer(buf, atoi(cfg[2]))
+		}
+	}
+	// every other `:w` case sets the buffer between the two attempts (from OnRetry) instead of before Connect: what
+	// Connection.Buffer says holds for the attempts that follow the call
+	lateBuffer := warm && len(rd.chunks)%2 == 0
 	client.OnRetry = func(err error, d time.Duration) {
 		if warm && attempts == 1 {
+			if lateBuffer {
+				setBuffer()
+			}
 			return
 		}
 		var ce *sse.ConnectionError
@@ -210,13 +226,9 @@ func runParse(args []string) string {
 		cancel()
 	}
 	req, _ := http.NewRequestWithContext(ctx, http.MethodGet, "http://verif.invalid/", http.NoBody)
-	c := client.NewConnection(req)
-	if cfg[0] == "c" {
-		var buf []byte
-		if cfg[1] != "n" {
-			buf = make([]byte, 0, atoi(cfg[1]))
-		}
-		c.Buffer(buf, atoi(cfg[2]))
+	c = client.NewConnection(req)
+	if !lateBuffer {
+		setBuffer()
 	}
 	c.SubscribeToAll(func(e sse.Event) {
 		if warm && attempts == 1 {
